@@ -5,10 +5,10 @@ From H3V Require Import Base.Bytes Base.BytesLemmas Gen.GenFrameTypes Spec.Frame
   Proofs.VarintProofs Proofs.NoPanicFrames Proofs.QpackStatelessProofs Proofs.HeadersProofs Proofs.SettingsProofs.
 
 (* the payload a HEADERS / SETTINGS frame hands on is made of bytes of the input *)
-Lemma frame_decode_payload_wf v f pos : wf_bytes v -> frame_decode v = (Ok f, pos) ->
+Lemma frame_decode_payload_wf v f pos : wf_bytes v -> FrameDec.frame_decode v = (Ok f, pos) ->
   match f with FHeaders b => wf_bytes b | FSettings p => wf_bytes p | _ => True end.
 Proof.
-  intros Hwf. unfold frame_decode.
+  intros Hwf. unfold FrameDec.frame_decode.
   destruct (vi_decode v) as [[ty|e|s] r1] eqn:V1; try discriminate.
   assert (W1 : wf_bytes r1) by (pose proof (vi_decode_rest_wf _ Hwf) as W; rewrite V1 in W; exact W).
   destruct (ty =? fdec_wt_type).
@@ -48,7 +48,7 @@ Theorem recv_path_no_panic role grow max v s : wf_bytes v -> recv_path role grow
 Proof.
   intros Hwf. unfold recv_path.
   pose proof (frame_decode_no_panic v Hwf) as F.
-  destruct (frame_decode v) as [[f|e|s'] pos] eqn:D; cbn [fst] in *; [|discriminate|discriminate].
+  destruct (FrameDec.frame_decode v) as [[f|e|s'] pos] eqn:D; cbn [fst] in *; [|discriminate|discriminate].
   pose proof (frame_decode_payload_wf v f pos Hwf D) as W.
   destruct f; try discriminate.
   - pose proof (decode_stateless_no_panic max block W) as Q.
